@@ -76,7 +76,7 @@ PROPS = {
                      'A-STD: std containers report capacity()/len() truthfully'],
         design='DESIGN.md §5 C08'),
     'C09': dict(
-        title='heap_size = allocator bytes (relative to std capacity contracts)', level='model_checking', templates=[],
+        title='heap_size = allocator bytes (relative to std capacity contracts)', level='model_checking', templates=['memsize'],
         k_quick=['q_ms_alloc_string', 'q_ms_alloc_vec', 'q_ms_alloc_pathbuf', 'q_ms_alloc_box', 'q_ms_alloc_nested', 'q_ms_vec_string', 'q_ms_wrappers', 'q_ms_bulk_tuple_box', 'q_ms_seq_option_result'],
         k_thorough=['t_ms_alloc_hash', 't_ms_alloc_osstring_cstring'],
         assumptions=['A-STD: a Vec/BinaryHeap holds capacity()*size_of::<T>() bytes, String/OsString/PathBuf hold capacity() bytes, Box<T> holds size_of_val; the link to real allocator bytes is NOT checked by this technique'],
